@@ -426,7 +426,9 @@ int main(int argc, char **argv)
 
     Pool pool;
     pool.workers = g_cfg.workers;
-    pool.workDir = root + "/.build/harness/clientfeed.work";
+    // one work directory per run: several checks (C01 and C02 both use this harness) may run at the same time
+    ::mkdir((root + "/.build/harness/clientfeed.work").c_str(), 0755);
+    pool.workDir = root + "/.build/harness/clientfeed.work/" + std::to_string(getpid());
     pool.tag = "c";
     pool.init();
     std::map<std::string, long> failCount;
@@ -528,6 +530,10 @@ int main(int argc, char **argv)
     for (auto &kv : failCount) vh::stat("failcount:" + kv.first, kv.second);
     if (T[C_CONNECT_FAILED]) printf("O FAIL C02:harness:loopback-connect-failed\t%lld clients could not be brought online\n", T[C_CONNECT_FAILED]);
     if (pool.crashStorms) printf("O FAIL C02:harness:crash-storm\t%d batches abandoned after too many child crashes\n", pool.crashStorms);
+    if (crashes == 0) {   // crashed batches keep their output for diagnosis
+        std::string cmd = "rm -rf '" + pool.workDir + "'";
+        if (system(cmd.c_str()) != 0) { /* best effort */ }
+    }
     vh::finish();
     return 0;
 }
